@@ -114,6 +114,8 @@ static cbor_item_t* leaf(void) {
     case 14: {
       uint32_t u = (uint32_t)vh_rand();
       if (!vh_randn(4)) u |= 0x7f800000u;
+      else if (!vh_randn(6)) u &= 0x807fffffu;          /* zero or subnormal */
+      if (!vh_randn(12)) u &= 0xff800000u;              /* mantissa 0: +-0, +-infinity, powers of two */
       float f;
       memcpy(&f, &u, 4);
       return cbor_build_float4(f);
@@ -121,6 +123,8 @@ static cbor_item_t* leaf(void) {
     default: {
       uint64_t u = vh_rand();
       if (!vh_randn(4)) u |= 0x7ff0000000000000ull;
+      else if (!vh_randn(6)) u &= 0x800fffffffffffffull;  /* zero or subnormal */
+      if (!vh_randn(12)) u &= 0xfff0000000000000ull;      /* mantissa 0: +-0, +-infinity, powers of two */
       double d;
       memcpy(&d, &u, 8);
       return cbor_build_float8(d);
@@ -296,7 +300,16 @@ size_t vg_encoding(unsigned char* b, size_t cap, int depth) {
     }
     case 4: { static const unsigned char s[] = {0xf4, 0xf5, 0xf6, 0xf7}; b[0] = s[vh_randn(4)]; return 1; }
     case 5: { int w = 2 << vh_randn(3); b[0] = w == 2 ? 0xf9 : w == 4 ? 0xfa : 0xfb; for (int i = 0; i < w; i++) b[1 + i] = (unsigned char)vh_rand();
-              if (!vh_randn(4)) { b[1] = 0x7f; b[2] |= 0xf0; } return 1 + w; }
+              if (!vh_randn(4)) { b[1] = 0x7f; b[2] |= 0xf0; }
+              else if (!vh_randn(5)) { /* exponent field 0 (zeros and subnormals) or all ones (infinities and NaNs), either sign */
+                int ones = (int)vh_randn(2), zero_mant = (int)vh_randn(3) == 0;
+                b[1] = (unsigned char)((b[1] & 0x80) | (ones ? 0x7f : 0x00));
+                if (w == 2) b[1] = (unsigned char)((b[1] & 0x80) | (ones ? 0x7c : 0x00) | (b[1] & 0x03 & (zero_mant ? 0 : 3)));
+                else if (w == 4) b[2] = (unsigned char)((ones ? 0x80 : 0x00) | (b[2] & 0x7f));
+                else b[2] = (unsigned char)((ones ? 0xf0 : 0x00) | (b[2] & 0x0f));
+                if (zero_mant) { for (int i = 2; i <= w; i++) b[i] = (unsigned char)(i == 2 ? (w == 4 ? (b[2] & 0x80) : w == 8 ? (b[2] & 0xf0) : 0) : 0); if (w == 2) b[1] &= 0xfc; }
+              }
+              return 1 + w; }
     case 6: case 7: {
       size_t c = vh_randn(4);
       n = put_head(b, k == 6 ? 4 : 5, c, rand_width(c));
